@@ -576,10 +576,10 @@ func (device *AbacoUDPReceiver) start() (err error) {
 		for {
 			select {
 			case _, ok := <-device.sendmore:
-				device.data <- queue
-				if !ok {
+				if !ok { // stop() closed sendmore: nobody will receive the queue any more
 					return
 				}
+				device.data <- queue
 				queue = make([]*packets.Packet, 0, initialQueueCapacity)
 			default:
 				_, _, err := device.conn.ReadFrom(message)
